@@ -247,6 +247,8 @@ class Program:
                             with open(path, encoding="utf-8") as f:
                                 src = f.read()
                         tree = ast.parse(src, filename=path)
+                        from .desugar import desugar
+                        tree = desugar(tree)
                     except (SyntaxError, UnicodeDecodeError, OSError) as e:
                         self.parse_errors.append(f"{rel}: {e}")
                         continue
